@@ -80,6 +80,55 @@ def fitted(recv, fn):
 //@   loop 10 invariant [aln] {ALN}
 //@   loop 10 writes fresh
 '''
+def affine(s):
+    # affine aligners keep the matrix in a.Matrix
+    return s.replace('len(a)', 'len(a.Matrix)').replace('a[k]', 'a.Matrix[k]')
+def nwaffine(recv, fn):
+    return affine(f'''//@ func ({recv}).{fn}
+//@   property C09
+//@   maypanic
+//@   requires alpha != nil && allocated(idxRef(alpha)) && len(rSeq) > 0 && len(qSeq) > 0
+{ENS}//@   loop 1 invariant {LOOP1}
+//@   loop 2 invariant 0 <= idx && idx <= len(rSeq) && {KEEP} && forall k int :: 0 <= k && k < idx ==> lidx(alpha, rSeq[k]) >= 0
+//@   loop 3 invariant 0 <= idx && idx <= len(qSeq) && {KEEP} && {RV} && forall k int :: 0 <= k && k < idx ==> lidx(alpha, qSeq[k]) >= 0
+//@   loop 4 invariant 0 <= idx && idx <= c - 2 && {KEEP} && {VALID} && {DIMS}
+//@   loop 5 invariant 2 <= i && i <= r && {KEEP} && {VALID} && {DIMS}
+//@   loop 6 invariant 1 <= i && i <= r && {KEEP} && {VALID} && {DIMS}
+//@   loop 7 invariant 1 <= i && i < r && 1 <= j && j <= c && {KEEP} && {VALID} && {DIMS}
+//@   loop 8 invariant 0 <= idx && idx <= 2 && 0 <= layer && layer <= 2 && {KEEP} && {VALID} && {DIMS}
+//@   loop 8 invariant [aln] {ALN}
+//@   loop 9 invariant 0 <= i && i < r && 0 <= j && j < c && 0 <= layer && layer <= 2 && {KEEP} && {VALID} && {DIMS}
+//@   loop 9 invariant [aln] {ALN}
+//@   loop 9 writes fresh
+//@   loop 10 invariant 0 <= i && j == len(aln) - 1 - i && {KEEP} && {VALID}
+//@   loop 10 invariant [aln] {ALN}
+//@   loop 10 writes fresh
+''')
+def swaffine(recv, fn):
+    base = sw(recv, fn)
+    base = base.replace("//@   loop 4 invariant 0 <= i && i < r && 0 <= j && j < c &&", "//@   loop 4 invariant 0 <= i && i < r && 0 <= j && j < c && 0 <= layer && layer <= 2 &&")
+    return affine(base)
+def fittedaffine(recv, fn):
+    return affine(f'''//@ func ({recv}).{fn}
+//@   property C09
+//@   maypanic
+//@   requires alpha != nil && allocated(idxRef(alpha)) && len(rSeq) > 0 && len(qSeq) > 0
+{ENS}//@   loop 1 invariant {LOOP1}
+//@   loop 2 invariant 0 <= idx && idx <= len(rSeq) && {KEEP} && forall k int :: 0 <= k && k < idx ==> lidx(alpha, rSeq[k]) >= 0
+//@   loop 3 invariant 0 <= idx && idx <= len(qSeq) && {KEEP} && {RV} && forall k int :: 0 <= k && k < idx ==> lidx(alpha, qSeq[k]) >= 0
+//@   loop 4 invariant 0 <= idx && idx <= c - 2 && {KEEP} && {VALID} && {DIMS}
+//@   loop 5 invariant 2 <= i && i <= r && {KEEP} && {VALID} && {DIMS}
+//@   loop 6 invariant 1 <= i && i <= r && {KEEP} && {VALID} && {DIMS}
+//@   loop 7 invariant 1 <= i && i < r && 1 <= j && j <= c && {KEEP} && {VALID} && {DIMS}
+//@   loop 8 invariant 1 <= y && y <= r && j == c - 1 && 0 <= i && i < r && layer == 0 && {KEEP} && {VALID} && {DIMS}
+//@   loop 8 invariant [aln] {ALN}
+//@   loop 9 invariant 0 <= i && i < r && 0 <= j && j < c && 0 <= layer && layer <= 2 && {KEEP} && {VALID} && {DIMS}
+//@   loop 9 invariant [aln] {ALN}
+//@   loop 9 writes fresh
+//@   loop 10 invariant 0 <= i && j == len(aln) - 1 - i && {KEEP} && {VALID}
+//@   loop 10 invariant [aln] {ALN}
+//@   loop 10 writes fresh
+''')
 def q(s):
     # quality letters: the letter of element k is rSeq[k].L
     return s.replace('rSeq[k]', 'rSeq[k].L').replace('qSeq[k]', 'qSeq[k].L').replace('rSeq[i-1]', 'rSeq[i-1].L')
@@ -87,4 +136,10 @@ out = []
 for mk, recv in ((nw, 'NW'), (sw, 'SW'), (fitted, 'Fitted')):
     out.append(mk(recv, 'alignLetters'))
     out.append(q(mk(recv, 'alignQLetters')))
+out.append(nwaffine('NWAffine', 'alignLetters'))
+out.append(q(nwaffine('NWAffine', 'alignQLetters')))
+out.append(swaffine('SWAffine', 'alignLetters'))
+out.append(q(swaffine('SWAffine', 'alignQLetters')))
+out.append(fittedaffine('FittedAffine', 'alignLetters'))
+out.append(q(fittedaffine('FittedAffine', 'alignQLetters')))
 sys.stdout.write('\n'.join(out))
